@@ -154,6 +154,100 @@ def check_reset(ck, spec, kind):
     ck.prove(f"reset.state_obs@{name}", [], g, replay=lambda res: concrete.replay_outputs(tr, S, res, uf_apps=it.uf_apps, oracle=orc))
 
 
+# ------------------------------------------------------------------------------------------------ environments with host-side effects
+def _counting_gym_env(horizon=3):
+    import gymnasium
+    import numpy as _np
+
+    class Chain(gymnasium.Env):
+        """deterministic chain: observation = (position, resets so far, steps since reset, 0); terminates after `horizon` steps"""
+        observation_space = gymnasium.spaces.Box(-100.0, 100.0, (4,), _np.float32)
+        action_space = gymnasium.spaces.Discrete(2)
+
+        def __init__(self):
+            self.resets, self.t, self.x = 0, 0, 0.0
+
+        def _obs(self):
+            return _np.array([self.x, self.resets, self.t, 0.0], _np.float32)
+
+        def reset(self, *, seed=None, options=None):
+            self.resets += 1
+            self.t, self.x = 0, 0.0
+            return self._obs(), {}
+
+        def step(self, action):
+            self.t += 1
+            self.x += 1.0 + float(action)
+            return self._obs(), float(self.x), self.t >= horizon, False, {}
+    return Chain()
+
+
+def check_effects(ck):
+    """GymToLeraxEnv (anchor compatibility/gym.py): initial() and transition() act on a host-side simulator through ordered io_callbacks, so the state
+    returned by step is `the successor` only if step performs exactly the transition effect, and the reset effect exactly when a flag is raised."""
+    from lerax.compatibility.gym import GymToLeraxEnv
+    from lerax import wrapper as W
+    from jaxsmt.interp import Interp
+    base = GymToLeraxEnv(_counting_gym_env())
+    for label, env in (("GymToLeraxEnv", base), ("TimeLimit∘GymToLeraxEnv", W.TimeLimit(base, 5)), ("ClipReward∘TimeLimit∘GymToLeraxEnv", W.ClipReward(W.TimeLimit(base, 5)))):
+        st0 = jax.eval_shape(lambda k: env.initial(key=k), jr.key(0))
+
+        def sig(f, *args):
+            t = trace(f, *args, label="signature")
+            return [(tuple(v.aval.shape), str(v.aval.dtype)) for e in _eqns(t.jaxpr) if e.primitive.name == "io_callback" for v in e.outvars]
+        sig_reset = sig(lambda e, k: e.initial(key=k), env, jr.key(0))
+        sig_trans = sig(lambda e, s_, a, k: e.transition(s_, a, key=k), env, st0, jnp.array(1), jr.key(0))
+
+        def f(e, s_, a, k):
+            from jaxsmt import stubs
+            with stubs.prng_stubs():
+                ns, ob, r, te, tu, info = e.step(s_, a, key=k)
+            return {"terminal": te, "truncate": tu, "reward": r}
+        tr = trace(f, env, st0, jnp.array(1), jr.key(0), argnames=["env", "st", "a", "key"], label=f"{label}.step (host effects)")
+        ck.encoded(tr)
+        it = Interp()
+        S = tr.symbols(it)
+        out = tr.run(it, S)
+        eff = [x for x in it.effects if x["kind"] == "io_callback"]
+        kinds = ["reset" if x["out_avals"] == sig_reset else ("transition" if x["out_avals"] == sig_trans else "other") for x in eff]
+        ck.fact(f"effects.one_transition_then_one_reset@{label}", kinds == ["transition", "reset"] and all(x["ordered"] for x in eff) and sig_reset != sig_trans,
+                f"host effects of step in program order: {kinds}; ordered: {[x['ordered'] for x in eff]}")
+        if kinds != ["transition", "reset"]:
+            continue
+        done = it.o.lor(out["terminal"][()], out["truncate"][()])
+        g_t, g_r = eff[0]["guard"], eff[1]["guard"]
+
+        def rp(res, env=env, label=label):
+            """real adapter over a real (counting) Gymnasium environment: reset, then steps; the simulator must be reset once per raised flag and no more"""
+            import equinox as eqx
+            sim = _counting_gym_env()
+            e = GymToLeraxEnv(sim)
+            if "TimeLimit" in label:
+                e = W.TimeLimit(e, 5)
+            if "ClipReward" in label:
+                e = W.ClipReward(e)
+            s_, _, _ = e.reset(key=jr.key(3))
+            flags, rewards = 0, []
+            for i in range(2):
+                s_, ob, r, te, tu, _ = e.step(s_, jnp.array(1), key=jr.key(10 + i))
+                flags += int(bool(te) or bool(tu))
+                rewards.append(float(r))
+            return sim.resets != 1 + flags, {"function": f"{label}.step on a counting Gymnasium environment", "simulator_resets": sim.resets, "flags_raised": flags, "step_rewards": rewards,
+                                             "expected_resets": 1 + flags}
+        ck.prove(f"effects.transition_always_reset_iff_flag@{label}", [], conj([g_t if not isinstance(g_t, bool) else g_t, (g_r == done) if not (isinstance(g_r, bool) and isinstance(done, bool)) else (g_r == done)]), replay=rp)
+    ck.stub("io_callback results: uninterpreted functions of their operands and a sequence number; their execution condition is the conjunction of the enclosing lax.cond branch predicates")
+
+
+def _eqns(jaxpr):
+    for e in jaxpr.eqns:
+        yield e
+        for v in e.params.values():
+            for sub in (v if isinstance(v, (tuple, list)) else [v]):
+                j = getattr(sub, "jaxpr", sub)
+                if hasattr(j, "eqns"):
+                    yield from _eqns(j)
+
+
 def main():
     ck = Check("C01", "auto-reset contract")
     ck.mode = "REAL"
@@ -200,6 +294,8 @@ def main():
                     s, counters = state_parts(S, "st_", spec)
                     ck.control("control.never_resets", [], eq_elem(oc[0], counters[0] + 1))
     ck.notes.append(f"stacks skipped because a layer cannot be constructed (reported by C13): {sorted(set(skipped))[:40]}")
+    with ck.section("effects"):
+        check_effects(ck)
     # every built-in environment class inherits step/reset (no override): the contract proved above is the code they run
     with ck.section("inherit"):
         from lerax.env.base_env import AbstractEnvLike
